@@ -2,10 +2,11 @@
 # Build the framework from files on disk only (offline).
 set -e
 export GOFLAGS=-mod=mod GOPROXY=off GOSUMDB=off GOTOOLCHAIN=local CGO_ENABLED=0
-cd /verif
+ROOT=${VERIF_ROOT:-$(dirname "$(readlink -f "$0")")}
+cd $ROOT
 mkdir -p bin evidence .work
-(cd tools/extract && go build -o /verif/bin/extract .)
-./bin/extract /repo /verif/lean/GLua/Generated
+(cd tools/extract && go build -o $ROOT/bin/extract .)
+./bin/extract /repo $ROOT/lean/GLua/Generated
 (cd lean && lake build gluadrv GLua.AuditCmd GLua)
-(cd harness && cp /repo/go.sum go.sum && go build -tags verif -o /verif/bin/glcheck .)
+(cd harness && cp /repo/go.sum go.sum && go build -tags verif -o $ROOT/bin/glcheck .)
 echo setup-ok
